@@ -232,4 +232,36 @@ theorem crash_filewise (s : Scn) (hwf : s.WF = true)
           · right; subst hpc; simp [newDir, hsm.1, hsm.2]
           · simpa [hpc, hp s.tombTmp] using hfw p hp
 
+
+/-- operations on temp files only leave every non-temporary path as it was -/
+theorem tmpOnly_same (ops : List Op)
+    (h : ∀ op ∈ ops, (∃ k, op = Op.create (.tmp k)) ∨ (∃ k c, op = Op.write (.tmp k) c) ∨ (∃ k, op = Op.remove (.tmp k)))
+    (d : Dir) (j : Nat) : ∀ p, (∀ k, p ≠ Path.tmp k) → applyAll d (ops.take j) p = d p := by
+  apply prefix_inv (fun d' => ∀ p, (∀ k, p ≠ Path.tmp k) → d' p = d p) ops _ d (fun _ _ => rfl) j
+  intro op hop d' hd p hp
+  rcases h op hop with ⟨k, rfl⟩ | ⟨k, c, rfl⟩ | ⟨k, rfl⟩ <;> simp [apply, Dir.set, hp k, hd p hp]
+
+theorem writeFailOps_tmpOnly (s : Scn) (j : Nat) :
+    ∀ op ∈ writeFailOps s j,
+      (∃ k, op = Op.create (.tmp k)) ∨ (∃ k c, op = Op.write (.tmp k) c) ∨ (∃ k, op = Op.remove (.tmp k)) := by
+  intro op hop
+  simp only [writeFailOps, List.mem_append] at hop
+  rcases hop with (hop | hop) | hop
+  · rcases tempOps_Q1 s op (List.mem_of_mem_take hop) with h | h | ⟨_, _, h⟩ | ⟨_, _, h⟩
+    · exact Or.inl h
+    · exact Or.inr (Or.inl h)
+    · have := List.mem_of_mem_take hop
+      simp [tempOps] at this; rcases this with ⟨_, _, h' | h'⟩ | ⟨_, _, h' | h'⟩ <;> simp [h'] at h
+    · have := List.mem_of_mem_take hop
+      simp [tempOps] at this; rcases this with ⟨_, _, h' | h'⟩ | ⟨_, _, h' | h'⟩ <;> simp [h'] at h
+  · simp at hop; exact Or.inl ⟨j, hop⟩
+  · split at hop
+    · simp at hop; obtain ⟨i, _, rfl⟩ := hop; exact Or.inr (Or.inr ⟨i, rfl⟩)
+    · simp at hop; exact Or.inr (Or.inr ⟨j, hop⟩)
+
+/-- a failing temp-file write changes nothing a searcher can see, at any crash point of such a run -/
+theorem writeFail_same (s : Scn) (j k : Nat) (p : Path) (hp : ∀ i, p ≠ Path.tmp i) :
+    applyAll (oldDir s) ((writeFailOps s j).take k) p = oldDir s p :=
+  tmpOnly_same _ (writeFailOps_tmpOnly s j) (oldDir s) k p hp
+
 end ZoektModel.C12
